@@ -61,7 +61,7 @@ pub fn explore(name: &str, opts: &Opts, expected: BTreeSet<String>, body: impl F
     let mut b = loom::model::Builder::new();
     b.preemption_bound = opts.preemptions;
     b.max_duration = Some(Duration::from_secs(opts.max_secs));
-    b.checkpoint_interval = 500; // max_duration is only looked at every checkpoint_interval iterations
+    b.checkpoint_interval = 100; // max_duration is only looked at every checkpoint_interval iterations
     b.max_branches = 20_000;
     let start = Instant::now();
     b.check(move || {
